@@ -42,4 +42,15 @@ var metas = map[string]*checkMeta{
 		Faults:      []string{"short_reads", "one_byte_reads", "split_writes", "blocked_reads"},
 		Probes:      []string{"set_chunk_size_announced", "messages_extended_timestamp", "messages_multi_chunk", "messages_max_length", "task_switches"},
 	},
+	"C08": {
+		ID: "C08", Level: "fault_enumeration",
+		Phases: []phase{{Name: "faults", Pkg: "checks/c08",
+			Quick: tierCfg{Count: 60, Budget: 60 * time.Second},
+			Thor:  tierCfg{Count: 1500, Budget: 25 * time.Minute}}},
+		Rule: "plan = workload (RTMP: handshake + message/SetChunkSize sequence over two real endpoints; FLV: header + tag sequence; errors: a nesting of the errors constructors) + one fault dimension; for that workload EVERY position of the dimension is executed: cut at every byte offset 0..len of a direction/file (handshake region sampled at boundaries +-2 and a stride in 90% of RTMP workloads), sticky sentinel read error at every read-call index (with 0 and >0 bytes alongside), sentinel write error at every write-call index (zero/partial/full acceptance), error-free short write at every write-call index, endpoint close at every scheduler step; FLV write faults are followed by demuxing the torn file. evaluations = fault positions executed. Non-trivial = every executed fault position; distinct = distinct (plan body, fault position).",
+		Components: map[string]string{"rtmp.Protocol/Handshake, flv.Muxer/Demuxer, errors": "real", "transport/disk": "sim (simnet) with cut/read-error/write-error/short-write/close faults", "baseline": "fault-free run of the same plan gives byte offsets of every message/tag end"},
+		Assumptions: append([]string{"a failed transport stays failed (injected read/write errors are sticky), as real sockets and files behave", "io.EOF and io.ErrUnexpectedEOF are both accepted as the root cause of a cut stream, as the statement says"}, stdAssume...),
+		Faults:      []string{"fault_cut", "fault_read_error", "fault_write_error", "fault_short_write", "fault_close", "torn_files_read", "short_reads", "one_byte_reads"},
+		Probes:      []string{"workloads_rtmp", "workloads_flv", "error_nestings", "fault_positions_rtmp_cut", "fault_positions_rtmp_rerr", "fault_positions_rtmp_werr", "fault_positions_rtmp_short", "fault_positions_rtmp_close", "fault_positions_flv_cut", "fault_positions_flv_rerr", "fault_positions_flv_werr", "fault_positions_flv_short"},
+	},
 }
